@@ -334,7 +334,12 @@ class Metadata(object):
 
     def remove_host(self, host):
         with self._hosts_lock:
-            return bool(self._hosts.pop(host.endpoint, False))
+            # a stale Host instance (already removed, its endpoint re-added since as a new Host)
+            # must not take the current one with it
+            if self._hosts.get(host.endpoint) is not host:
+                return False
+            del self._hosts[host.endpoint]
+            return True
 
     def get_host(self, endpoint_or_address, port=None):
         """
